@@ -42,13 +42,31 @@ fn quote(v: &str) -> String {
     if !v.contains('"') { format!("\"{v}\"") } else { format!("'{v}'") }
 }
 
-pub fn generate(_ctx: &mut Ctx, seed: u64, i: usize, kind: &str) -> Case {
+pub fn generate(_ctx: &mut Ctx, seed: u64, i: usize, kind: &str, always_malformed: bool) -> Case {
     let mut rng = Rng::new(seed, i as u64);
     let lang = rng.pick(LANGS);
     let mut attrs: Vec<(String, String)> = vec![];
     let mut patterns = vec![];
-    let malformed = rng.chance(1, 6);
+    let mut asyncs = vec![];
+    let mut all_changed = false;
+    let malformed = always_malformed || rng.chance(1, 6);
     match kind {
+        "affects" => {
+            let v = if malformed { *rng.pick(&["nocolon", "a.py", " ", "", "x.py:a, y", ",", ":a,"]) } else { *rng.pick(&[":blk", "f.py:blk", " : blk ", ":blk,:blk"]) };
+            attrs.push(("affects".into(), v.into()));
+            all_changed = rng.chance(4, 5);
+        }
+        "check-lua" => {
+            let v = *rng.pick(&["", " ", "\t", "does/not/exist.lua", "missing.lua"]);
+            attrs.push(("check-lua".into(), v.into()));
+            if !v.trim().is_empty() { asyncs.push(json!({"v": "check-lua", "arg": v, "out": {"err": "lua-error"}})); }
+            if rng.chance(1, 3) { attrs.push(("check-lua-pattern".into(), "(".into())); }
+        }
+        "check-ai" => {
+            let v = *rng.pick(&["", " ", "must be sorted", "x"]);
+            attrs.push(("check-ai".into(), v.into()));
+            if !v.trim().is_empty() { asyncs.push(json!({"v": "check-ai", "arg": v, "out": {"err": "ai-error"}})); }
+        }
         "keep-sorted" => {
             let dir = if malformed && rng.chance(1, 3) { *rng.pick(BAD_DIRS) } else { *rng.pick(DIRS) };
             attrs.push(("keep-sorted".into(), dir.into()));
@@ -88,7 +106,7 @@ pub fn generate(_ctx: &mut Ctx, seed: u64, i: usize, kind: &str) -> Case {
         let s = if rng.chance(1, 5) { *rng.pick(BAD_SEVERITIES) } else { *rng.pick(SEVERITIES) };
         attrs.push(("severity".into(), s.into()));
     }
-    if rng.chance(1, 2) { attrs.push(("name".into(), "blk".into())); }
+    if rng.chance(1, 2) || kind == "affects" { attrs.push(("name".into(), "blk".into())); }
     // numeric alphabets for numeric formats, to keep the not-a-number error rate low
     let numeric = attrs.iter().any(|(k, v)| k == "keep-sorted-format" && v.trim().eq_ignore_ascii_case("numeric"))
         && !attrs.iter().any(|(k, _)| k == "keep-sorted-pattern");
@@ -136,13 +154,18 @@ pub fn generate(_ctx: &mut Ctx, seed: u64, i: usize, kind: &str) -> Case {
     if inline_last { src.pop(); if src.ends_with('\r') { src.pop(); } src += " "; }
     src += &format!("{indent}{}</block>{}\n", lang.open, lang.close);
     let path = format!("f.{}", lang.ext);
+    let changes = if all_changed {
+        Some([(path.clone(), (1..=src.lines().count() + 1).map(|l| (l, None)).collect())].into_iter().collect())
+    } else { None };
     Case {
         files: vec![(path.clone(), Some(src))],
         walk: vec![path.clone()],
         allow: vec![path],
         scan: true,
+        changes,
         enabled: vec![kind.to_string()],
         patterns,
+        asyncs,
         meta: json!({"gen": "val", "kind": kind, "i": i, "malformed": malformed, "nlines": nlines}),
         ..Default::default()
     }
